@@ -100,6 +100,22 @@ func (i *iterT) Next() interface{} {
 	return v
 }
 
+type (
+	EmbV struct {
+		S
+		Tag string
+	} // value embedding
+	MyInt   int
+	MyStr   string
+	MySlice []int
+	MyMap   map[string]int
+	Holder  struct {
+		Any interface{}
+		Err error
+		St  fmt.Stringer
+	}
+)
+
 // Emb embeds *S: S's fields (F, N, P, ...) and methods (Hello, Add, ...) are promoted.
 type Emb struct {
 	*S
@@ -205,6 +221,29 @@ var pool = []*pv{
 	{Name: "pmsi", Kind: "ptr", Mk: func() interface{} { return &map[string]int{"a": 1} }},
 	// structs, pointers
 	{Name: "sval", Kind: "struct", Mk: func() interface{} { return newS() }},
+	// more shapes of ordinary Go data: value embedding, named types, pointer to pointer, interface fields holding
+	// typed nils, struct-keyed and pointer-keyed maps, byte slices, nested collections, channels, complex numbers
+	{Name: "embval", Kind: "struct", Mk: func() interface{} { return EmbV{S: newS(), Tag: "t"} }},
+	{Name: "myint", Kind: "int", Odd: true, Mk: func() interface{} { return MyInt(3) }},
+	{Name: "mystr", Kind: "string", Odd: true, Mk: func() interface{} { return MyStr("ms") }},
+	{Name: "myslice", Kind: "slice", Odd: true, Mk: func() interface{} { return MySlice{1, 2} }},
+	{Name: "mymap", Kind: "map", Key: "string", Odd: true, Mk: func() interface{} { return MyMap{"a": 1} }},
+	{Name: "myints", Kind: "slice", Odd: true, Mk: func() interface{} { return []MyInt{1, 2} }},
+	{Name: "ppS2", Kind: "ptr", Odd: true, Mk: func() interface{} { s := newS(); p := &s; return &p }},
+	{Name: "ifacenil", Kind: "struct", Odd: true, Mk: func() interface{} { return Holder{Any: (*S)(nil), Err: nil, St: (*Str)(nil)} }},
+	{Name: "mstructkey", Kind: "map", Key: "struct", Odd: true, Mk: func() interface{} { return map[Str]int{{V: "k"}: 1} }},
+	{Name: "mptrkey", Kind: "map", Key: "ptr", Odd: true, Mk: func() interface{} { k := &S{}; return map[*S]int{k: 1} }},
+	{Name: "mboolkey", Kind: "map", Key: "bool", Odd: true, Mk: func() interface{} { return map[bool]string{true: "t"} }},
+	{Name: "mfloatkey", Kind: "map", Key: "float", Odd: true, Mk: func() interface{} { return map[float64]string{1.5: "f"} }},
+	{Name: "bytesl", Kind: "slice", Odd: true, Mk: func() interface{} { return []byte("ab") }},
+	{Name: "nested", Kind: "slice", Mk: func() interface{} { return [][]int{{1}, {}, nil} }},
+	{Name: "mapofslices", Kind: "map", Key: "string", Mk: func() interface{} { return map[string][]string{"a": {"x"}, "n": nil} }},
+	{Name: "sliceofmaps", Kind: "slice", Mk: func() interface{} { return []map[string]interface{}{{"a": 1}, nil} }},
+	{Name: "arrofptr", Kind: "array", Odd: true, Mk: func() interface{} { return [2]*S{nil, {F: "x"}} }},
+	{Name: "chanint", Kind: "chan", Odd: true, Mk: func() interface{} { return make(chan int, 1) }},
+	{Name: "cplx", Kind: "complex", Odd: true, Mk: func() interface{} { return complex(1, 2) }},
+	{Name: "errval", Kind: "struct", Odd: true, Mk: func() interface{} { return errors.New("an error value") }},
+	{Name: "rune", Kind: "int32", Mk: func() interface{} { return 'x' }},
 	// structs that EMBED a pointer: fields and methods are promoted through it, also when it is nil
 	{Name: "embnil", Kind: "struct", Odd: true, Mk: func() interface{} { return Emb{Tag: "t"} }},
 	{Name: "pembnil", Kind: "ptr", Odd: true, Mk: func() interface{} { return &Emb{Tag: "t"} }},
